@@ -29,6 +29,17 @@ def with_crc(pkt):
     return pkt[:-6] + c.to_bytes(4, 'big') + pkt[-2:]
 
 
+def with_zero_crc(pkt):
+    """as with_crc, with the rolling counter chosen so that one of the first three bytes of the CRC is 0x00"""
+    for c in range(65536):
+        q = pkt[:-2] + c.to_bytes(2, 'big')
+        v = zlib.crc32(q[:-6] + q[-2:]) & 0xffffffff
+        b = v.to_bytes(4, 'big')
+        if 0 in b[:3]:
+            return q[:-6] + b + q[-2:], b[:3].index(0)
+    return with_crc(pkt), None
+
+
 def crc_rule(pkt):
     return len(pkt) >= 6 and int.from_bytes(pkt[-6:-2], 'big') == (zlib.crc32(pkt[:-6] + pkt[-2:]) & 0xffffffff)
 
@@ -43,7 +54,7 @@ class Prop(PropBase):
     defines = dict(FLAGS)
     rule = ('the real driver compiled 9 ways (default; each of ENABLE_TRANSFORM with identity parameters, ENABLE_DIFOP_PARSE, ENABLE_WAIT_IF_QUEUE_EMPTY, ENABLE_EPOLL_RECEIVE, ENABLE_MODIFY_RECVBUF, '
             'DISABLE_PCAP_PARSE alone; the five ENABLE_ options together; ENABLE_CRC32_CHECK; thorough adds three more combinations) under ASan/UBSan; the same scenarios - decodePacket streams of all 17 types with malformed '
-            'packets, pcap files and loopback UDP (paced and burst) with real threads - run on every applicable build: default build against the model, every other build against the default build '
+            'packets, pcap files (short, and one of 1300+ packets read at one packet per 100 us), loopback UDP (paced and burst) with real threads - run on every applicable build: default build against the model, every other build against the default build '
             '(clouds, points, packet records, errors); CRC build: packets with a valid stored CRC, single-bit corruptions anywhere in the packet, wrong stored values, against the model with the check on and '
             'against an independent zlib.crc32 oracle; kernels calcCrc32/isCrc32Correct against the model and zlib on random strings; non-trivial = scenario with >= 1 cloud (flags) or >= 1 rejected and >= 1 accepted packet (CRC)')
     explanation = ('C20_T1..T6 (Coq: ENABLE_DIFOP_PARSE inert for every packet history; regenerated table = bitwise reflected 0xEDB88320; table-driven = bit-by-bit IEEE CRC-32 for all byte strings; chaining; '
@@ -82,7 +93,7 @@ class Prop(PropBase):
         allv = [v for v in self.harness_variants if v not in ('asan', 'asan+crc', 'asan+crcall')]
         if bname == 'raw':
             return allv
-        if bname == 'pcap':
+        if bname in ('pcap', 'pcapfast'):
             return [v for v in allv if 'nopcap' not in v]
         if bname == 'sock':
             return allv
@@ -98,6 +109,12 @@ class Prop(PropBase):
             n = rng.choice([1, 1, 2, 5, 6, 7, 8, 9, 64, 255, 256, 1248, rng.randrange(1, 1500)])
             data = bytes(rng.randrange(256) for _ in range(n))
             ks.append(f'K crc {data.hex()}')
+            if n >= 8 and rng.random() < 0.3:
+                q, zi = with_zero_crc(data)
+                b = bytearray(q)
+                if zi is not None and rng.random() < 0.8:
+                    b[len(b) - 6 + rng.randrange(zi + 1, 4)] ^= 1 << rng.randrange(8)
+                ks.append(f'K crcok {bytes(b).hex()}')
             if n >= 6:
                 p = with_crc(data) if rng.random() < 0.6 else data
                 if rng.random() < 0.4:
@@ -153,6 +170,17 @@ class Prop(PropBase):
             so.append(s.text(residual=()))
         out.append(('pcap', '\n'.join(pc) + '\n'))
         out.append(('sock', '\n'.join(so) + '\n'))
+        # a long capture file read at about one packet per 100 us: far more than 1024 packets arrive within the half second a
+        # consumer may spend in one wait; small DIFOP-dispatched packets, so that every build's decoder keeps up with a wide margin
+        l = L['RS16']
+        port = base + 90
+        s = scen.Scn('c20_pcapfast_RS16')
+        s.lines.append(pktgen.Cfg(wait=0, dense=0, pktcb=1, lclock=1).line(0, l)); s.lines.append(f'N 0 1 {port} {port} 0 0 6.66')
+        for k in range(1300 if tier == 'quick' else 2600):
+            f = udp_frame(b'\xa5\xff' + k.to_bytes(4, 'big') + bytes((k * 7 + j) & 0xff for j in range(58)), port)
+            s.lines.append(f'F 0 {len(f)} {f.hex()}')
+        s.lines.append('GO 0')
+        out.append(('pcapfast', s.text(residual=()) + '\n'))
         # ---- CRC build
         self.crc_expect = {}
         sc = []
@@ -179,8 +207,13 @@ class Prop(PropBase):
                 exp = []
                 for k in range(rng.choice([5, 8]) if not l.jumbo else 3):
                     p = with_crc(mk())
-                    how = rng.choice(['ok', 'ok', 'flip', 'flip', 'flipcrc', 'flipcnt', 'stale', 'zero', 'short', 'runt'])
+                    how = rng.choice(['ok', 'ok', 'flip', 'flip', 'flipcrc', 'flipcnt', 'stale', 'zero', 'short', 'runt', 'zerobyte', 'zerobyte'])
                     b = bytearray(p)
+                    if how == 'zerobyte':   # the correct CRC holds a 0x00 byte; the stored value is wrong only behind it (or right)
+                        q, zi = with_zero_crc(p)
+                        b = bytearray(q)
+                        if zi is not None and rng.random() < 0.75:
+                            b[len(b) - 6 + rng.randrange(zi + 1, 4)] ^= 1 << rng.randrange(8)
                     if how == 'short':      # wrong length: rejected for its length, whatever its trailing bytes say
                         q = p[:rng.choice([100, 6, 7, len(p) - 1, len(p) - 6])]
                         b = bytearray(with_crc(q) if rng.random() < 0.4 else q)
@@ -206,6 +239,18 @@ class Prop(PropBase):
         return out
 
     def judge(self, bname, inp, impl_path, model_path, impl_log, violations, broken, stats):
+        if bname == 'pcapfast':
+            # only the packet records: which packets reached the decoder, in which order, with which bytes (error reports of
+            # these deliberately short packets are throttled by the real clock)
+            saved = self.projection
+            self.projection = {'kinds': {'pkt', 'crash', 'nodrv', 'initfail'}, 'ignore_ts': True}
+            try:
+                return self.judge2(bname, inp, impl_path, model_path, impl_log, violations, broken, stats)
+            finally:
+                self.projection = saved
+        return self.judge2(bname, inp, impl_path, model_path, impl_log, violations, broken, stats)
+
+    def judge2(self, bname, inp, impl_path, model_path, impl_log, violations, broken, stats):
         super().judge(bname, inp, impl_path, model_path, impl_log, violations, broken, stats)
         if bname.startswith('kern'):
             return
